@@ -24,6 +24,7 @@
 #include <fcppt/type_iso/enum.hpp>
 #include <fcppt/type_iso/strong_typedef.hpp>
 
+#include <cmath>
 #include <cstdint>
 #include <cstring>
 #include <limits>
@@ -43,8 +44,8 @@ constexpr int DRAWS = 64;
 
 // ------------------------------------------------------------------ seed set
 // every seed in [0,N) (N = 256 quick, 4096 thorough) plus 2^31-1 (== 0 modulo the
-// minstd modulus), 2^32 (== 0 after truncation to 32 bit) and the maximum of the
-// seed type.  Only valid inside a shard body (the tier is known only after vrt::run
+// minstd modulus), 2^32 (== 0 after truncation to 32 bit), 2^32+1, 2^63 and the maximum
+// of the seed type (2^64-1).  Only valid inside a shard body (the tier is known only after vrt::run
 // parsed the command line).
 inline std::vector<u64> const &seeds()
 {
@@ -55,6 +56,8 @@ inline std::vector<u64> const &seeds()
       r.push_back(i);
     r.push_back((u64(1) << 31) - 1U);
     r.push_back(u64(1) << 32);
+    r.push_back((u64(1) << 32) + 1U); // seeds that need more than 32 bit: the seed type of both engines is 64 bit wide
+    r.push_back(u64(1) << 63);
     r.push_back(std::numeric_limits<u64>::max());
     return r;
   }();
@@ -85,7 +88,9 @@ inline std::string str128(i128 v)
 
 template <class T> std::string show(T v)
 {
-  if constexpr (std::is_floating_point_v<T>)
+  if constexpr (std::is_same_v<T, long double>)
+    return vrt::fmt("%.21Lg(%La)", v, v);
+  else if constexpr (std::is_floating_point_v<T>)
     return vrt::fmt("%.17g(%a)", static_cast<double>(v), static_cast<double>(v));
   else
     return str128(static_cast<i128>(v));
@@ -110,8 +115,8 @@ template <class... A> bool announce(char const *fn, A... a)
 
 template <class T> bool same(T a, T b)
 {
-  if constexpr (std::is_floating_point_v<T>)
-    return std::memcmp(&a, &b, sizeof(T)) == 0; // bit-exact, distinguishes -0.0
+  if constexpr (std::is_floating_point_v<T>) // value-exact and distinguishes -0.0 (not memcmp: long double has padding bytes)
+    return (a != a && b != b) || (a == b && std::signbit(a) == std::signbit(b));
   else
     return a == b;
 }
@@ -582,6 +587,60 @@ void uniform_int_family(std::string const &rname,
   }
 }
 
+// parameters -> std param_type -> parameters is the identity (seed independent): for every pair
+// a <= b of `values`, convert_from() carries exactly (a,b), convert_to(std distribution) converted
+// back again carries exactly (a,b), and so do param() of a distribution built from the parameters
+// and param() after param(set).
+template <class R> void roundtrip_uniform_int(std::string const &rname, std::vector<typename rt<R>::base> const &values)
+{
+  using base = typename rt<R>::base;
+  using P = fcppt::random::distribution::parameters::uniform_int<R>;
+  using SD = std::uniform_int_distribution<base>;
+  using D = fcppt::random::distribution::basic<P>;
+  std::string const nm = "roundtrip<uniform_int<" + rname + ">>";
+  char const *const fn = intern(nm);
+  for (base const a : values)
+    for (base const b : values)
+    {
+      if (!(a <= b))
+        continue;
+      if (!announce(fn, a, b))
+        continue;
+      vrt::nontrivial(a < b);
+      vrt::maybe_sample();
+      P const p{typename P::min(rt<R>::wrap(a)), typename P::max(rt<R>::wrap(b))};
+      auto const sp = p.convert_from();
+      VRT_CHECK(sp.a() == a && sp.b() == b, nm + ":convert_from", "convert_from gives [%s,%s]", show(sp.a()).c_str(), show(sp.b()).c_str());
+      P const back(P::convert_to(SD(a, b)));
+      auto const sp2 = back.convert_from();
+      VRT_CHECK(sp2.a() == a && sp2.b() == b, nm + ":convert_to", "convert_to(std).convert_from() gives [%s,%s]", show(sp2.a()).c_str(),
+                show(sp2.b()).c_str());
+      D d(p);
+      auto const sp3 = d.param().convert_from();
+      VRT_CHECK(sp3.a() == a && sp3.b() == b && rt<R>::unwrap(d.min()) == a && rt<R>::unwrap(d.max()) == b, nm + ":param_getter",
+                "param() reports [%s,%s]", show(sp3.a()).c_str(), show(sp3.b()).c_str());
+      D d2(P{typename P::min(rt<R>::wrap(values.front())), typename P::max(rt<R>::wrap(values.front()))});
+      d2.param(p);
+      auto const sp4 = d2.param().convert_from();
+      VRT_CHECK(sp4.a() == a && sp4.b() == b, nm + ":param_getter_after_set", "param() after param(set) reports [%s,%s]",
+                show(sp4.a()).c_str(), show(sp4.b()).c_str());
+    }
+}
+
+// boundary list of an integer type
+template <class T> std::vector<T> boundary_values()
+{
+  i128 const lo = std::numeric_limits<T>::min(), hi = std::numeric_limits<T>::max();
+  std::set<i128> s;
+  for (i128 v : {lo, lo + 1, lo / 2, i128(-8), i128(-1), i128(0), i128(1), i128(8), hi / 2, hi / 2 + 1, hi - 1, hi})
+    if (v >= lo && v <= hi)
+      s.insert(v);
+  std::vector<T> r;
+  for (i128 v : s)
+    r.push_back(static_cast<T>(v));
+  return r;
+}
+
 // all [a,b] with -8 <= a <= b <= 8 (signed) / 0 <= a <= b <= 16 (unsigned)
 template <class T> std::vector<std::pair<T, T>> small_intervals()
 {
@@ -641,5 +700,7 @@ void register_unsigned();  // C20_unsigned.cpp
 void register_wrapped();   // C20_wrapped.cpp
 void register_enum();      // C20_enum.cpp
 void register_real();      // C20_real.cpp
+void register_normal();    // C20_normal.cpp
+void register_user();      // C20_user.cpp
 void register_container(); // C20_container.cpp
 }
